@@ -6,7 +6,7 @@ RULE = ("byte-level packets built without Scapy: IPv4 IHL 5..15 with random opti
         "id/DF/MBZ/ECN/flow combinations, option areas from well-formed options with NOP/EOL padding, hostile option areas "
         "(0-40 bytes over a length-ish alphabet), every option kind with every length; observable = every field of parse_packet "
         "and TCPPacketSignature.from_packet; non-trivial = model dissects the packet and the option area is non-empty")
-GEN_TIE = ['options']     # TCPOptions.parse (the option walker's while loop) is also TRANSLATED from /repo's source on every run and proved equal to the model
+GEN_TIE = ['options', 'layers']     # TCPOptions.parse (the option walker's while loop) and the whole extraction (IP._from_ipv4/_from_ipv6, TCP.from_packet, Packet.from_packet, TCPPacketSignature.from_packet; translate/lay2coq.py) are also TRANSLATED from /repo's source on every run and proved equal to the model
 ASSUMPTIONS = ["Scapy dissection is on the implementation side; the model covers well-framed IPv4/IPv6+TCP datagrams only",
                "IPv6 extension headers and link-layer trailers are outside the demand"]
 EXHAUSTIVE = {"all 512 TCP flag combinations x {v4, v6}": True, "every option kind 0..255 x length byte 0..41 at the start of a 40-byte area (thorough)": True,
